@@ -798,6 +798,11 @@ def gen_seq_design(rnd, size=8, reset=None, step_cond=False, with_conc=True):
     if reset:
         inputs.append((reset['sig'], 'bit', None))
     sigs = [('s0', 'u', 3, rnd.randrange(8)), ('s1', 'bv', 4, rnd.randrange(16))]
+    if rnd.random() < 0.3:
+        # a signal whose declared default is *another object* of the same type (Signal[T](s0)): the default is the
+        # value of that object at declaration time, later assignments to the source must not change it
+        src = rnd.choice(sigs)
+        sigs.append(('sd', src[1], src[2], src[3], False, src[0]))
     vars_ = [('v0', 'u', 3, rnd.randrange(8)), ('v1', 'bv', 4, 0)]
     arrs = []
     if rnd.random() < 0.6:
@@ -860,6 +865,8 @@ def gen_seq_design(rnd, size=8, reset=None, step_cond=False, with_conc=True):
         ctxs.append({'kind': 'conc', 'name': 'taps', 'body': taps, 'helpers': [], 'pushed': [], 'driven': [t[1].split('.')[1] for t in taps]})
         bg.features.add('record-signal' + ('-noreset' if recs[0][1] else ''))
     spec = {'inputs': inputs, 'outs': outs, 'sigs': sigs, 'vars': vars_, 'arrs': arrs, 'recs': recs, 'ctxs': ctxs}
+    if any(len(o) > 5 for o in sigs):
+        bg.features.add('default-from-object')
     return spec, sorted(bg.features)
 
 
@@ -870,6 +877,8 @@ def gen_coro_design(rnd, size=8, reset=None, depth=3, step_cond=False, subs=True
         inputs.append((reset['sig'], 'bit', None))
     outs.append(('mk', 'u', 6, 0))
     sigs = [('s0', 'u', 3, rnd.randrange(8))]
+    if rnd.random() < 0.3:
+        sigs.append(('sd', 'u', 3, sigs[0][3], False, 's0'))
     vars_ = [('v0', 'u', 3, rnd.randrange(8)), ('acc', 'u', 6, 0)]
     ins = [Obj(f"self.{n}", k, w, n, 'in') for n, k, w in inputs if not (reset and n == reset['sig'])]
     oo = [Obj(f"self.{o[0]}", o[1], o[2], o[0], 'out') for o in outs if o[0] != 'mk']
@@ -898,6 +907,8 @@ def gen_coro_design(rnd, size=8, reset=None, depth=3, step_cond=False, subs=True
         ctxs.append({'kind': 'conc', 'name': 'taps', 'body': taps, 'helpers': [], 'pushed': [], 'driven': [t[1].split('.')[1] for t in taps]})
         bg.features.add('record-signal' + ('-noreset' if recs[0][1] else ''))
     spec = {'inputs': inputs, 'outs': outs, 'sigs': sigs, 'vars': vars_, 'arrs': [], 'recs': recs, 'ctxs': ctxs}
+    if any(len(o) > 5 for o in sigs):
+        bg.features.add('default-from-object')
     return spec, sorted(bg.features)
 
 
